@@ -39,6 +39,8 @@ def families(tier, seed):
         out.append(dict(name=f'enumerated graphs of synthesized Streett implementations part {i}',
                         run=ce.enumeration_on_implementations('streett', seed * 100 + i, n // parts), label='bounded'))
     out.append(dict(name='enumerated graphs of hand-made actions', run=ce.enumeration_handmade(), label='bounded'))
+    from contracts import optdiff as _od
+    out.append(dict(name='same results with assert statements stripped (python -O), section C12', run=_od.family('C12'), label='bounded'))
     return out
 
 
